@@ -85,132 +85,230 @@ def walk_files(root):
     return out
 
 
+def write_case(root, case):
+    for rel, d in case["inis"].items():
+        if d is None:
+            continue
+        p = os.path.join(root, rel)
+        os.makedirs(os.path.dirname(p), exist_ok=True)
+        with open(p, "w") as f:
+            f.write(ini_text(d).replace("@R@", root))
+    for rel in case.get("filters", []):
+        p = os.path.join(root, rel, "filter.py")
+        os.makedirs(os.path.dirname(p), exist_ok=True)
+        with open(p, "w") as f:
+            f.write("def test(mod, path, entity=None):\n    return mod != %r\n" % rel)
+    for rel in case.get("bad_filters", []):
+        p = os.path.join(root, rel, "filter.py")
+        os.makedirs(os.path.dirname(p), exist_ok=True)
+        with open(p, "w") as f:
+            f.write("test = 3\n" if len(rel) % 2 else "def test(:\n")
+    for rel, text in case.get("locales_files", {}).items():
+        p = os.path.join(root, rel)
+        os.makedirs(os.path.dirname(p), exist_ok=True)
+        with open(p, "w") as f:
+            f.write(text)
+    for rel in case.get("files", []):
+        p = root + rel
+        os.makedirs(os.path.dirname(p), exist_ok=True)
+        with open(p, "w") as f:
+            f.write("k = v\n")
+
+
+def world_tokens(root, case):
+    """the world for the model, read with the real configparser / parseLocales from the files as they are NOW"""
+    from compare_locales import util
+    fl = case.get("flavour")
+    inifiles = [p for p in walk_files(root) if p.endswith(".ini")]
+    wt = ["P"] if fl is None else (["T", enc(os.path.join(root, fl["base"])), str(len(fl["redirects"]))] +
+                                   [x for k, v in fl["redirects"].items() for x in (enc(k), enc(v))])
+    wt += [enc(os.getcwd()), "W", str(len(inifiles))]
+    for p in inifiles:
+        wt.append(enc(p))
+        wt += doc_tokens(p)
+    fdirs = []
+    for p in inifiles:
+        fp = os.path.join(os.path.dirname(p), "filter.py")
+        try:
+            loc = {}
+            with open(fp) as f:
+                exec(compile(f.read(), fp, "exec"), {}, loc)
+            if "test" in loc and callable(loc["test"]):
+                fdirs.append(p)
+        except BaseException:
+            pass
+    wt += ["FL", str(len(fdirs))] + [enc(p) for p in fdirs]
+    lfiles = [p for p in walk_files(root) if os.path.basename(p) in ("all-locales", "locales.txt")]
+    wt += ["LO", str(len(lfiles))]
+    for p in lfiles:
+        ls = util.parseLocales(open(p).read())
+        wt += [enc(p), str(len(ls))] + [enc(x) for x in ls]
+    return wt
+
+
+def new_app(root, case):
+    from compare_locales.paths import EnumerateApp, EnumerateSourceTreeApp
+    top = os.path.join(root, case["top"])
+    l10nbase = os.path.join(root, case["l10nbase"])
+    fl = case.get("flavour")
+    if fl is None:
+        return EnumerateApp(top, l10nbase)
+    return EnumerateSourceTreeApp(top, os.path.join(root, fl["base"]), l10nbase, dict(fl["redirects"]))
+
+
+def as_config(root, case, get_app):
+    """(pc|None, canonical text, violations) of `get_app().asConfig()`"""
+    from impl import tomlcfg as TCF
+    vio = []
+    pc = None
+    try:
+        pc = get_app().asConfig()
+        fp = None
+        hits = []
+        if pc.filter_py is not None:
+            hits = [rel for rel in case.get("filters", []) if pc.filter_py(rel, "x") == "ignore"]
+            fp = os.path.normpath(os.path.join(root, hits[0])) if hits else "?"
+        want = case.get("expect", {}).get("filter_dir")
+        if "expect" in case and not case["expect"].get("error") and hits[:1] != ([want] if want is not None else []):
+            vio.append("l10n.ini %s: filter_py comes from the filter.py in %r, expected the first one in getFilters order "
+                       "(own directory, then the includes depth first): %r" % (case["top"], hits[:1], want))
+        impl = TCF.canon_pc(pc) + " FP " + opt(fp)
+    except RecursionError:
+        impl = "err:RecursionError"
+    except FileNotFoundError as e:
+        impl = "err:FileNotFoundError " + enc(e.filename)
+    except Exception as e:    # noqa
+        impl = "err:" + type(e).__name__
+    return pc, impl, vio
+
+
+def enumerate_config(root, case, pc, wt, order, out):
+    """ProjectFiles(loc, [pc]) for every locale of `order`: canonical results, `c13.ini.run` lines, oracle"""
+    from compare_locales.paths import ProjectFiles
+    from compare_locales import mozpath
+    from impl.projfiles import fmt_item, Strip
+    top = os.path.join(root, case["top"])
+    l10nbase = os.path.join(root, case["l10nbase"])
+    strip = Strip(root)
+    fsfiles = []
+    for d, dirs, files in os.walk(root):
+        for f in files:
+            fsfiles.append(mozpath.join(d, f))
+    universe = fsfiles + [root + p for p in case.get("lookups", []) if root + p not in fsfiles]
+    mbase = root + "/merge" if case.get("mergebase") else None
+    for loc in order:
+        mb = mbase if loc is not None else None
+        try:
+            pf = ProjectFiles(loc, [pc], mergebase=mb)
+            items = [[strip(a), strip(b), strip(c), sorted(t)] for a, b, c, t in pf]
+            looks = []
+            for p in universe:
+                m = pf.match(p)
+                looks.append(None if m is None else [strip(m[0]), strip(m[1]), strip(m[2]), sorted(m[3])])
+            canon = "ok|" + ";".join(fmt_item(i) for i in items) + "|" + ";".join("None" if l is None else fmt_item(l) for l in looks)
+            out["violations"] += check_enum(case, loc, items)
+        except (RuntimeError, AttributeError, TypeError) as e:
+            canon = "err:" + type(e).__name__
+        out["rimpl"].append(canon)
+        out["locales"].append(loc)
+        out["rlines"].append(" ".join(
+            ["c13.ini.run"] + wt + [enc(top), enc(l10nbase), "-" if loc is None else enc(loc), "-" if mb is None else enc(mb),
+                                    "S", str(len(universe))] + [enc(p) for p in universe] +
+            ["U", str(len(universe))] + [str(i) for i in range(len(universe))] +
+            ["F", str(len(fsfiles)), "TT", str(len(TESTS))] + [enc(t) for t in TESTS] + [enc(root)]))
+
+
 def run_ini(case):
     """case = {"inis": {rel: doc|None}, "filters": [rel dir], "locales_files": {rel: text}, "files": [rel], "top": rel,
                "l10nbase": rel, "flavour": None | {"base": rel, "redirects": {..}}, "locales": [...], "mergebase": bool,
                "expect": {...}}"""
     import logging
     logging.disable(logging.CRITICAL)
-    from compare_locales.paths import EnumerateApp, EnumerateSourceTreeApp, ProjectFiles
-    from compare_locales import util, mozpath
-    from impl import tomlcfg as TCF
-    from impl.projfiles import fmt_item, Strip
     os.makedirs(SCRATCH, exist_ok=True)
     root = os.path.realpath(tempfile.mkdtemp(prefix="ini-", dir=SCRATCH))
     try:
-        for rel, d in case["inis"].items():
-            if d is None:
-                continue
-            p = os.path.join(root, rel)
-            os.makedirs(os.path.dirname(p), exist_ok=True)
-            with open(p, "w") as f:
-                f.write(ini_text(d).replace("@R@", root))
-        for rel in case.get("filters", []):
-            p = os.path.join(root, rel, "filter.py")
-            os.makedirs(os.path.dirname(p), exist_ok=True)
-            with open(p, "w") as f:
-                f.write("def test(mod, path, entity=None):\n    return mod != %r\n" % rel)
-        for rel in case.get("bad_filters", []):
-            p = os.path.join(root, rel, "filter.py")
-            os.makedirs(os.path.dirname(p), exist_ok=True)
-            with open(p, "w") as f:
-                f.write("test = 3\n" if len(rel) % 2 else "def test(:\n")
-        for rel, text in case.get("locales_files", {}).items():
-            p = os.path.join(root, rel)
-            os.makedirs(os.path.dirname(p), exist_ok=True)
-            with open(p, "w") as f:
-                f.write(text)
-        for rel in case.get("files", []):
-            p = root + rel
-            os.makedirs(os.path.dirname(p), exist_ok=True)
-            with open(p, "w") as f:
-                f.write("k = v\n")
+        write_case(root, case)
         top = os.path.join(root, case["top"])
         l10nbase = os.path.join(root, case["l10nbase"])
-        fl = case.get("flavour")
-        # ---- the world for the model, read with the real configparser / parseLocales
-        inifiles = [p for p in walk_files(root) if p.endswith(".ini")]
-        wt = ["P"] if fl is None else (["T", enc(os.path.join(root, fl["base"])), str(len(fl["redirects"]))] +
-                                       [x for k, v in fl["redirects"].items() for x in (enc(k), enc(v))])
-        wt += [enc(os.getcwd()), "W", str(len(inifiles))]
-        for p in inifiles:
-            wt.append(enc(p))
-            wt += doc_tokens(p)
-        fdirs = []
-        for p in inifiles:
-            fp = os.path.join(os.path.dirname(p), "filter.py")
-            try:
-                loc = {}
-                with open(fp) as f:
-                    exec(compile(f.read(), fp, "exec"), {}, loc)
-                if "test" in loc and callable(loc["test"]):
-                    fdirs.append(p)
-            except BaseException:
-                pass
-        wt += ["FL", str(len(fdirs))] + [enc(p) for p in fdirs]
-        lfiles = [p for p in walk_files(root) if os.path.basename(p) in ("all-locales", "locales.txt")]
-        wt += ["LO", str(len(lfiles))]
-        for p in lfiles:
-            ls = util.parseLocales(open(p).read())
-            wt += [enc(p), str(len(ls))] + [enc(x) for x in ls]
+        wt = world_tokens(root, case)
         out = {"root": root, "violations": [], "rlines": [], "rimpl": [], "locales": []}
         out["line"] = " ".join(["c13.ini.config"] + wt + [enc(top), enc(l10nbase)])
-        pc = None
-        try:
-            if fl is None:
-                app = EnumerateApp(top, l10nbase)
-            else:
-                app = EnumerateSourceTreeApp(top, os.path.join(root, fl["base"]), l10nbase, dict(fl["redirects"]))
-            pc = app.asConfig()
-            fp = None
-            hits = []
-            if pc.filter_py is not None:
-                hits = [rel for rel in case.get("filters", []) if pc.filter_py(rel, "x") == "ignore"]
-                fp = os.path.normpath(os.path.join(root, hits[0])) if hits else "?"
-            want = case.get("expect", {}).get("filter_dir")
-            if "expect" in case and not case["expect"].get("error") and hits[:1] != ([want] if want is not None else []):
-                out["violations"].append("l10n.ini %s: filter_py comes from the filter.py in %r, expected the first one in getFilters order "
-                                         "(own directory, then the includes depth first): %r" % (case["top"], hits[:1], want))
-            impl = TCF.canon_pc(pc) + " FP " + opt(fp)
-        except RecursionError:
-            impl = "err:RecursionError"
-        except FileNotFoundError as e:
-            impl = "err:FileNotFoundError " + enc(e.filename)
-        except Exception as e:    # noqa
-            impl = "err:" + type(e).__name__
+        pc, impl, vio = as_config(root, case, lambda: new_app(root, case))
+        out["violations"] += vio
         out["impl"] = impl.replace(root, "@R@")
         out["violations"] += check_config(case, root, pc, impl)
         if pc is None:
             return out
-        # ---- enumeration
-        strip = Strip(root)
-        fsfiles = []
-        for d, dirs, files in os.walk(root):
-            for f in files:
-                fsfiles.append(mozpath.join(d, f))
-        universe = fsfiles + [root + p for p in case.get("lookups", []) if root + p not in fsfiles]
-        mbase = root + "/merge" if case.get("mergebase") else None
-        for loc in case["locales"] + [None]:
-            mb = mbase if loc is not None else None
-            try:
-                pf = ProjectFiles(loc, [pc], mergebase=mb)
-                items = [[strip(a), strip(b), strip(c), sorted(t)] for a, b, c, t in pf]
-                looks = []
-                for p in universe:
-                    m = pf.match(p)
-                    looks.append(None if m is None else [strip(m[0]), strip(m[1]), strip(m[2]), sorted(m[3])])
-                canon = "ok|" + ";".join(fmt_item(i) for i in items) + "|" + ";".join("None" if l is None else fmt_item(l) for l in looks)
-                out["violations"] += check_enum(case, loc, items)
-            except (RuntimeError, AttributeError, TypeError) as e:
-                canon = "err:" + type(e).__name__
-            out["rimpl"].append(canon)
-            out["locales"].append(loc)
-            out["rlines"].append(" ".join(
-                ["c13.ini.run"] + wt + [enc(top), enc(l10nbase), "-" if loc is None else enc(loc), "-" if mb is None else enc(mb),
-                                        "S", str(len(universe))] + [enc(p) for p in universe] +
-                ["U", str(len(universe))] + [str(i) for i in range(len(universe))] +
-                ["F", str(len(fsfiles)), "TT", str(len(TESTS))] + [enc(t) for t in TESTS] + [enc(root)]))
+        enumerate_config(root, case, pc, wt, case["locales"] + [None], out)
         return out
+    finally:
+        shutil.rmtree(root, ignore_errors=True)
+
+
+# ---------------------------------------------------------------- application sessions
+def run_ini_session(sess):
+    """sess = {"steps": [case, ...], "reuse": [bool, ...]}: the steps are written one after the other into ONE directory; step k
+    calls `asConfig()` on the EnumerateApp object of step k-1 when `reuse[k]` (the generator sets it only when the l10n.ini
+    files, the top file and the l10n base are unchanged — `self.config` is loaded by the constructor), else on a new object.
+    Every step is judged by its own by-construction expectation, a re-used application also by a fresh one; the
+    configurations returned earlier must stay what they were."""
+    import logging
+    logging.disable(logging.CRITICAL)
+    from impl import tomlcfg as TCF
+    from impl.projfiles import wipe
+    os.makedirs(SCRATCH, exist_ok=True)
+    root = os.path.realpath(tempfile.mkdtemp(prefix="inis-", dir=SCRATCH))
+    try:
+        app = [None]
+        held = []            # (step, pc, canonical text when returned)
+        steps = []
+        runs = []            # one entry per application object: {"head": tokens, "worlds": [...], "impl": [...]}
+        for k, case in enumerate(sess["steps"]):
+            wipe(root)
+            write_case(root, case)
+            wt = world_tokens(root, case)
+            out = {"root": root, "violations": [], "rlines": [], "rimpl": [], "locales": []}
+            reuse = bool(sess["reuse"][k]) and app[0] is not None
+
+            def get_app():
+                if not reuse:
+                    app[0] = None
+                    app[0] = new_app(root, case)
+                return app[0]
+            pc, impl, vio = as_config(root, case, get_app)
+            out["violations"] += vio + check_config(case, root, pc, impl)
+            out["impl"] = impl.replace(root, "@R@")
+            if reuse:
+                fpc, fimpl, _ = as_config(root, case, lambda: new_app(root, case))
+                if fimpl != impl:
+                    out["violations"].append("asConfig() on the RE-USED EnumerateApp object differs from a fresh EnumerateApp on the same files: "
+                                             "re-used %s, fresh %s" % (TCF.canon_readable(impl).replace(root, "")[:500], TCF.canon_readable(fimpl).replace(root, "")[:500]))
+            if not reuse or not runs:
+                top = os.path.join(root, case["top"])
+                runs.append({"head": wt + [enc(top), enc(os.path.join(root, case["l10nbase"]))], "worlds": [], "impl": [],
+                             "dead": app[0] is None})
+            runs[-1]["worlds"].append(wt)
+            runs[-1]["impl"].append(impl.replace(root, "@R@"))
+            if pc is not None:
+                order = case.get("order") or (case["locales"] + [None])
+                enumerate_config(root, case, pc, wt, order, out)
+                held.append((k, pc, TCF.canon_pc(pc)))
+            for j, old, canon in held:
+                now = TCF.canon_pc(old)
+                if now != canon:
+                    out["violations"].append("the ProjectConfig returned by asConfig() in step %d changed while the caller held it (after step %d): "
+                                             "it reads %s, it was %s" % (j, k, TCF.canon_readable(now).replace(root, "")[:400], TCF.canon_readable(canon).replace(root, "")[:400]))
+            held = [(j, old, TCF.canon_pc(old)) for j, old, _ in held]
+            out["violations"] = ["session step %d (%s application): %s" % (k, "re-used" if reuse else "new", v) for v in out["violations"]]
+            steps.append(out)
+        slines, simpl = [], []
+        for r in runs:
+            if r["dead"] and len(r["impl"]) == 1 and r["impl"][0].startswith("err:"):
+                # the constructor raised: nothing to call asConfig() on; the stateless stream covers it
+                continue
+            slines.append(" ".join(["c13.ini.session"] + r["head"] + [str(len(r["worlds"]))] + [t for w in r["worlds"] for t in w]))
+            simpl.append(" ## ".join(r["impl"]))
+        return {"steps": steps, "slines": slines, "simpl": simpl, "root": root}
     finally:
         shutil.rmtree(root, ignore_errors=True)
 
@@ -483,6 +581,55 @@ def gen_ini(rng):
             "l10nbase": "l10n", "flavour": flavour, "locales": list(LOCALES), "mergebase": rng.random() < 0.3,
             "lookups": [l for l in lookups if l not in files]}
     return finish_case(case)
+
+
+def gen_ini_session(rng):
+    """an l10n.ini tree, then 1-3 edited versions of it; the EnumerateApp object is kept across an edit that leaves the
+    l10n.ini files alone (all-locales rewritten, filter.py added or removed, files added to the tree, nothing at all)"""
+    import copy
+    base = gen_ini(rng)
+    steps, reuse = [base], [False]
+    for _ in range(rng.choice([1, 2, 2, 3])):
+        c = copy.deepcopy(steps[-1])
+        c.pop("expect", None)
+        e = rng.choice(["locales", "locales", "filters", "tree", "same", "dirs", "dirs", "include"])
+        keep = True
+        if e == "locales" and c["locales_files"]:
+            k = rng.choice(sorted(c["locales_files"]))
+            c["locales_files"][k] = rng.choice([t for t in ["de\nfr\n", "ja\n", "de\n", "fr\nja\nde\n", ""] if t != c["locales_files"][k]])
+        elif e == "filters":
+            dirsof = sorted(set(posixpath.dirname(i) or "." for i in c["inis"]))
+            d = rng.choice(dirsof)
+            c["bad_filters"] = [x for x in c.get("bad_filters", []) if x != d]
+            c["filters"] = [x for x in c["filters"] if x != d] if d in c["filters"] else sorted(c["filters"] + [d])
+        elif e == "tree":
+            fs = set(c["files"])
+            for _ in range(rng.randint(1, 3)):
+                m, n, loc = rng.choice(MODULES), rng.choice(NAMES), rng.choice(LOCALES)
+                fs.add(rng.choice(["/l10n/%s/%s/%s" % (loc, m, n), "/%s/locales/en-US/%s" % (m, n)]))
+            if fs and rng.random() < 0.5:
+                fs.discard(rng.choice(sorted(fs)))
+            c["files"] = sorted(f for f in fs if not any(f == "/" + i or f.startswith("/" + i + "/") for i in c["inis"]))
+            c["lookups"] = [l for l in c.get("lookups", []) if l not in c["files"]]
+        elif e == "dirs":
+            keep = False
+            k = rng.choice(sorted(c["inis"]))
+            c["inis"][k]["dirs"] = " ".join(rng.sample(MODULES, rng.randint(0, 3)))
+        elif e == "include":
+            keep = False
+            k = rng.choice(sorted(c["inis"]))
+            if c["inis"][k].get("includes"):
+                c["inis"][k]["includes"] = c["inis"][k]["includes"][:-1]
+            else:
+                c["inis"][k]["dirs"] = None
+        c["edit"] = e
+        steps.append(finish_case(c))
+        reuse.append(keep and rng.random() < 0.8)
+    for c in steps:
+        locs = list(c["locales"]) + [None]
+        rng.shuffle(locs)
+        c["order"] = locs[:3] + ([locs[0]] if rng.random() < 0.5 else [])
+    return {"steps": steps, "reuse": reuse}
 
 
 def directed_ini():
